@@ -107,6 +107,25 @@ func (g *vfGen) genC04() {
 		}
 		g.emit(fmt.Sprintf("dhist %d %s", []int{0, 3072, 16, 64}[g.intn(4)], strings.Join(items, ",")))
 	}
+	// directed: the same document many times in a row (an answer that depends on anything but the bytes — map
+	// iteration order, a counter, the clock — shows up as two different answers for one header): documents whose
+	// declarations compete (two attributes naming a charset, two metas, an XML declaration and a meta, duplicate keys)
+	for _, doc := range []string{
+		`<html><head><meta http-equiv="Content-Type" content="text/html; charset=iso-8859-1" charset="utf-8"></head>`,
+		`<html><meta charset="windows-1252" content="text/html; charset=iso-8859-1">`,
+		`<html><meta content="text/html; charset=koi8-r" charset=latin2 http-equiv=content-type>`,
+		`<html><meta charset=a charset=b><meta charset=c>`,
+		`<?xml version="1.0" encoding="iso-8859-5"?><html><meta charset="utf-16">`,
+		`{"type":"Feature","type":"Nope","geometry":null}`, `{"log":{"version":"1","creator":{},"entries":[]},"asset":{"version":"2"}}`,
+		"a,b;c\td\n1,2;3\t4\n5,6;7\t8\n",
+	} {
+		var items []string
+		for j := 0; j < 64; j++ {
+			items = append(items, vfHex([]byte(doc)))
+		}
+		g.emit(fmt.Sprintf("dhist 0 %s", strings.Join(items, ",")))
+		g.emit(fmt.Sprintf("dhist 3072 %s", strings.Join(items, ",")))
+	}
 	// directed: an aborted separated-values scan directly before a clean table
 	{
 		rag := [][]byte{[]byte("a\tb\tc\n1\t2\t3\n4\t5\n" + strings.Repeat("6\t7\t8\n", 40)), []byte("a,b,c\n1,2,3\n4,5\n" + strings.Repeat("6,7,8\n", 40)),
